@@ -1,7 +1,7 @@
 (* BoundsFacts.v - C08: which parameters the optimiser may move, and within which ranges - decided by
    vm_compute over the REGENERATED handle data (coq/gen/GenBounds.v: generate_basis() of the initial
    state of every group x state kind, probed through set_value(-inf/+inf) on the running code). *)
-From Coq Require Import ZArith String List Bool Floats.
+From Coq Require Import ZArith String Ascii List Bool Floats.
 From PV Require Import model.Tables model.Spec gen.GenTables gen.GenBounds.
 Import ListNotations.
 Local Open Scope string_scope.
@@ -42,10 +42,19 @@ Definition handles_ok (f : family) (hs : list gen_handle) : bool :=
   | _, _ => false
   end.
 
+(* kinds "...@shrunk" are the same states after the cell length and ratio were reduced: the ranges a later
+   stage of a chain declares (the score of such a probe state need not be defined) *)
+Fixpoint has_at (s : string) : bool :=
+  match s with
+  | EmptyString => false
+  | String c r => orb (Ascii.eqb c "@") (has_at r)
+  end.
+
 Definition state_ok (gs : list gen_group) (s : gen_state) : bool :=
   match find_group (gs_cli s) gs, find (fun g => String.eqb (sg_name g) (gs_cli s)) ita with
   | Some g, Some sp =>
-      (handles_ok (gg_family g) (gs_handles s) && gs_scored s && Nat.eqb (gs_copies s) (sg_order sp))%bool
+      (handles_ok (gg_family g) (gs_handles s) && (gs_scored s || has_at (gs_kind s))
+       && Nat.eqb (gs_copies s) (sg_order sp))%bool
   | _, _ => false
   end.
 
@@ -54,6 +63,6 @@ Definition state_ok (gs : list gen_group) (s : gen_state) : bool :=
 Theorem handles_are_declared_ranges : forallb (state_ok gen_groups) gen_bounds = true.
 Proof. vm_compute. reflexivity. Qed.
 
-(* all 7 groups x 5 state kinds were probed *)
-Theorem all_states_probed : length gen_bounds = 35%nat.
+(* all 7 groups x 5 state kinds were probed, initial and shrunk *)
+Theorem all_states_probed : length gen_bounds = 70%nat.
 Proof. vm_compute. reflexivity. Qed.
